@@ -67,8 +67,10 @@ CHECKS = {
                      "close-delimited responses are re-framed with Content-Length (their completion needs the close)"],
     ),
     "C05": dict(
-        bins=["fuzz_stream", "sreplay", "c07"], replay_bin="sreplay", replay_args=["--monitor", "C05"], replay_route=[("c07 ", "c07", ["--mode", "c05"])],
-        campaigns=lambda tier, seed: [dict(name="coded_bodies", bin="c07", shards=16, timeout=3000, args=["--mode", "c05"])] + _fuzz("C05", "")(tier, seed), level="exploration",
+        bins=["fuzz_stream", "sreplay", "c07", "c04", "c16"], replay_bin="sreplay", replay_args=["--monitor", "C05"], replay_route=[("c07 ", "c07", ["--mode", "c05"]), ("c04 ", "c04", ["--mode", "c05"]), ("c16 ", "c16", ["--mode", "c05"])],
+        campaigns=lambda tier, seed: [dict(name="coded_bodies", bin="c07", shards=16, timeout=3000, args=["--mode", "c05"]),
+                                      dict(name="pipelines", bin="c04", shards=16, timeout=3000, args=["--mode", "c05"]),
+                                      dict(name="connect", bin="c16", shards=16, timeout=3000, args=["--mode", "c05"])] + _fuzz("C05", "")(tier, seed), level="exploration",
         prepare="seeds",
         rule=("coverage-guided histories (as C01, but following the documented DATA_OTHER hand-over and without data after close) with a per-transaction "
               "lifecycle automaton evaluated on every callback: phase order per side, monotone progress (100-continue restart excepted), "
